@@ -30,6 +30,8 @@ pub struct HistSpec {
     pub post: Post,
     /// a panic inside one of these crate operations counts as a violation of this property
     pub panic_ops: Vec<&'static str>,
+    /// run the histories through the PrefixSet interpreter instead
+    pub set_mode: bool,
 }
 
 /// state-level checks run on the final state of a history
@@ -109,7 +111,13 @@ pub fn exec_hist<P: TP>(case: &Case, spec: &HistSpec, known: &BTreeSet<String>, 
     crate::views::NT.with(|n| n.borrow_mut().clear());
     crate::views::SUB.with(|c| c.set(0));
     let post = spec.post;
+    let set_mode = spec.set_mode;
     let r = catch_unwind(AssertUnwindSafe(|| {
+        if set_mode {
+            let s = crate::setinterp::run_set_history::<P>(&case.ops, &mut env)?;
+            w.a.drift = s.drift;
+            return Ok(());
+        }
         run_history(&mut w, &case.ops, &mut env)?;
         env.step = case.ops.len();
         match post {
@@ -160,7 +168,7 @@ pub fn exec_hist<P: TP>(case: &Case, spec: &HistSpec, known: &BTreeSet<String>, 
         Ok(Ok(())) => {}
         Ok(Err(f)) => res.fail = Some(f),
         Err(_) => {
-            let tainted = w.a.drift != 0 || w.b.drift != 0;
+            let tainted = w.a.drift != 0 || w.b.drift != 0 || env.has_ev("tainted");
             match panic_to_fail(env.cur_op, env.step, tainted) {
                 Ok(f) => res.fail = Some(f),
                 Err(hb) => res.harness_bug = Some(hb),
